@@ -93,8 +93,16 @@ def run_job(job):
             probes["cyclic_graph"] = probes.get("cyclic_graph", 0) + 1
         if r["status"] != "ok":
             if not expect_fail:
-                viols.append({"property": PROP, "clause": "crash", "seq": r["i"], "facts": {"where": r.get("where")},
-                              "msg": f"call {r['i']} (valid input) raised {r.get('error')} at {r.get('where')}"})
+                where = r.get("where") or ""
+                # C11 speaks of inputs "that pass mapping and link application": an exception raised inside those
+                # stages (or while reading the input) is outside its premise and only counted
+                if where.split(":")[0] in ("map_to_molecule.py", "apply_links.py", "apply_modifications.py",
+                                           "load_library.py", "ff_parser_sub.py", "polyply_parser.py", "meta_molecule.py",
+                                           "simple_seq_parsers.py", "gen_dna.py"):
+                    probes["refused_in_mapping_or_links"] = probes.get("refused_in_mapping_or_links", 0) + 1
+                else:
+                    viols.append({"property": PROP, "clause": "crash", "seq": r["i"], "facts": {"where": where},
+                                  "msg": f"call {r['i']} (valid input) raised {r.get('error')} at {where}"})
             failed_before = True
             continue
         if expect_fail:
